@@ -7,6 +7,20 @@ from ctx import match_arms, CTXMSG
 from engine import AnchorLost
 
 
+def packet_type_const(x, y, types):
+    """The packet type value if operand x is the constant side of a packet-type test against operand y: the associated
+    constant `<T as PacketID>::PACKET_ID`, or the bare value an arm of `match packet_type { PublishTx::PACKET_ID => .. }`
+    leaves behind (only values that are packet types count)."""
+    if x.get("k") != "const":
+        return None
+    if x.get("uneval") and x["uneval"]["name"] == "PACKET_ID" and isinstance(x["uneval"]["eval"], int):
+        return x["uneval"]["eval"]
+    v = x.get("val")
+    if isinstance(v, int) and not isinstance(v, bool) and y.get("k") != "const" and v in types and not x.get("uneval"):
+        return v
+    return None
+
+
 def type_guard_sites(ctx, body):
     """[(type name, cond block, successor when the packet IS of that type, successor when it is not)]"""
     types = {v: k for k, v in ctx.spec("packets")["types"].items()}
@@ -16,11 +30,12 @@ def type_guard_sites(ctx, body):
         if c.kind != "cmp" or c.op not in ("Eq", "Ne"):
             continue
         for x, y in ((c.a, c.b), (c.b, c.a)):
-            if x.get("k") == "const" and x.get("uneval") and x["uneval"]["name"] == "PACKET_ID" and isinstance(x["uneval"]["eval"], int):
+            v_ = packet_type_const(x, y, types)
+            if v_ is not None:
                 if any(a[0] == "field" and a[2] == "packet" for a in body.atoms(y)):
                     yes = c.true_succ if c.op == "Eq" else c.false_succ
                     no = c.false_succ if c.op == "Eq" else c.true_succ
-                    out.append((types.get(x["uneval"]["eval"], str(x["uneval"]["eval"])), b, yes, no))
+                    out.append((types.get(v_, str(v_)), b, yes, no))
     return out
 
 
@@ -58,9 +73,10 @@ class ArmPaths:
         if rv["k"] != "bin" or rv["op"] not in ("Eq", "Ne"):
             return None
         for x, y in ((rv["a"], rv["b"]), (rv["b"], rv["a"])):
-            if x.get("k") == "const" and x.get("uneval") and x["uneval"]["name"] == "PACKET_ID" and isinstance(x["uneval"]["eval"], int):
+            v_ = packet_type_const(x, y, self._types)
+            if v_ is not None:
                 if any(a[0] == "field" and a[2] == "packet" for a in self.body.atoms(y)):
-                    return (self._types.get(x["uneval"]["eval"], str(x["uneval"]["eval"])), rv["op"] == "Eq")
+                    return (self._types.get(v_, str(v_)), rv["op"] == "Eq")
         return None
 
     def _simulate(self, path):
